@@ -3,6 +3,7 @@ replay of every generated behaviour on the real ServerChannel / Server ->
 HsObs.tla monitor over the recorded histories."""
 import json
 import os
+import random
 import time
 
 import vlib
@@ -45,6 +46,20 @@ def run(tier, scratch, drv, only_cases=None):
         res["model"] = {"states": st.get("distinct", 0), "transitions": st.get("generated", 0),
                         "depth": st.get("depth"), "wall_s": st["wall_s"],
                         "invariants_checked": all_fixed}
+        # variants of refused handshakes on the real Server in which the client resets its connection right
+        # after its last symbol instead of waiting for the refusal (monitor only: C14, server side released)
+        refused = [c for c in cases if c["cfg"]["flavour"] == "server"
+                   and not any(e.get("k") == "in" and e.get("kind") in ("eof", "tlsup") for e in c["obs"])
+                   and not any(e.get("k") == "out" and e.get("st") == "established" for e in c["obs"])
+                   and any(e.get("k") == "in" for e in c["obs"])]
+        rng = random.Random(vlib.seed())
+        picked = rng.sample(refused, min(len(refused), 400 if tier == "quick" else 3000))
+        for c in picked:
+            v = json.loads(json.dumps(c))
+            v["cfg"]["rst"] = "y"
+            v["n"] = len(cases) + 1
+            cases.append(v)
+        res["model"]["reset_variants"] = len(picked)
     else:
         cases = only_cases
         res["model"] = {}
